@@ -32,12 +32,12 @@ import (
 
 type stubLedger struct{}
 
-func (stubLedger) BlockHeight() uint32                            { return 0 }
-func (stubLedger) CurrentBlockHash() util.Uint256                 { return util.Uint256{} }
-func (stubLedger) GetBlock(util.Uint256) (*block.Block, error)    { return nil, errors.New("no block") }
-func (stubLedger) GetConfig() config.Blockchain                   { return config.Blockchain{} }
-func (stubLedger) GetHeaderHash(uint32) util.Uint256              { return util.Uint256{} }
-func (stubLedger) NativeManagementID() int32                      { return -1 }
+func (stubLedger) BlockHeight() uint32                         { return 0 }
+func (stubLedger) CurrentBlockHash() util.Uint256              { return util.Uint256{} }
+func (stubLedger) GetBlock(util.Uint256) (*block.Block, error) { return nil, errors.New("no block") }
+func (stubLedger) GetConfig() config.Blockchain                { return config.Blockchain{} }
+func (stubLedger) GetHeaderHash(uint32) util.Uint256           { return util.Uint256{} }
+func (stubLedger) NativeManagementID() int32                   { return -1 }
 
 // how a frame is pushed on the real VM
 const (
